@@ -151,10 +151,11 @@ type structure struct {
 	d      *pagedoc.TextDoc
 	npages int
 	facts  map[int]*paraFacts
+	lines  []lineObs
 }
 
 func newStructure(d *pagedoc.TextDoc, occ map[int][][]string, lines []lineObs, frags []fragObs, npages int) *structure {
-	s := &structure{d: d, npages: npages, facts: map[int]*paraFacts{}}
+	s := &structure{d: d, npages: npages, facts: map[int]*paraFacts{}, lines: lines}
 	for _, p := range d.Paras {
 		f := &paraFacts{}
 		e := p.OwnText()
@@ -245,6 +246,51 @@ func (s *structure) fragTags(f *paraFacts, prefix string) []string {
 	return out
 }
 
+// movedWhole: the container (break-inside: avoid) of the block-level out-of-flow box q starts
+// on the page P that holds the first box of q, as the first in-flow content of that page, and
+// nothing of it is on an earlier page: an in-flow paragraph that is a child of the container
+// precedes q, all its lines are on P, and the first line of an in-flow paragraph on P belongs
+// to the container.  (When the page end falls inside a container that is not moved -- it
+// starts its page -- the container has content on the page before P.)
+func (s *structure) movedWhole(q *pagedoc.TPara) bool {
+	qf := s.facts[q.ID]
+	if q.ContFirst < 0 || qf == nil || len(qf.boxPages) == 0 {
+		return false
+	}
+	page := qf.boxPages[0]
+	ff := s.facts[q.ContFirst]
+	if ff == nil || len(ff.linePages) == 0 {
+		return false
+	}
+	for _, p := range ff.linePages {
+		if p != page {
+			return false
+		}
+	}
+	inside := map[int]bool{}
+	for _, id := range q.ContParas {
+		inside[id] = true
+	}
+	for _, id := range q.ContParas {
+		if f := s.facts[id]; f != nil {
+			for _, p := range f.linePages {
+				if p < page {
+					return false
+				}
+			}
+		}
+	}
+	for _, l := range s.lines {
+		if l.Page != page {
+			continue
+		}
+		if p := s.d.ParaByID(l.Para); p != nil && p.InFlow {
+			return inside[l.Para]
+		}
+	}
+	return false
+}
+
 func (s *structure) diagnose(p *pagedoc.TPara, k int) paraDiag {
 	f := s.facts[p.ID]
 	dg := paraDiag{Info: map[string]interface{}{}}
@@ -258,6 +304,10 @@ func (s *structure) diagnose(p *pagedoc.TPara, k int) paraDiag {
 	}
 	if (class == "dup-seg" || class == "dup-all") && f.from[k] == 0 {
 		dg.Tags = append(dg.Tags, "dup-from-start")
+	}
+	if (class == "lost-tail" || class == "lost-middle") && lostWordBeforeFloat(p, f.from[k], f.to[k]) {
+		// exactly the end of the word that immediately precedes a float of the line is missing
+		dg.Tags = append(dg.Tags, "lost-word-before-float")
 	}
 	dg.Tags = append(dg.Tags, s.fragTags(f, "")...)
 	dg.Info["diff"] = fmt.Sprintf("%s [%d,%d) of %d", class, f.from[k], f.to[k], f.n)
@@ -281,10 +331,11 @@ func (s *structure) diagnose(p *pagedoc.TPara, k int) paraDiag {
 		if q.Block && q.AvoidParent {
 			// a block-level out-of-flow box that is a child of a container with break-inside: avoid
 			flags["oof-child-of-avoid"] = true
-			if q.Role == "float" && q.AvoidPlain {
+			if q.Role == "float" && q.AvoidPlain && s.movedWhole(q) {
 				// ... a float, the container is a child of the body, nothing in the document
-				// has break-before / break-after: avoid
-				flags["oof-float-child-of-avoid"] = true
+				// has break-before / break-after: avoid, and the container was moved to the
+				// next page as a whole (see movedWhole)
+				flags["oof-float-in-avoid-moved-whole"] = true
 			}
 		}
 		if q.Block && q.AvoidAnc {
@@ -310,7 +361,7 @@ func (s *structure) diagnose(p *pagedoc.TPara, k int) paraDiag {
 		}
 		chain = append(chain, map[string]interface{}{"id": id, "role": q.Role, "block_level": q.Block, "box_pages": qf.boxPages, "line_pages": qf.linePages})
 	}
-	for _, k := range []string{"in-oof", "oof-has-float", "oof-has-abspos", "oof-child-of-avoid", "oof-float-child-of-avoid", "oof-below-avoid", "oof-none", "oof-none-block", "oof-docend", "oof-split", "oof-twice"} {
+	for _, k := range []string{"in-oof", "oof-has-float", "oof-has-abspos", "oof-child-of-avoid", "oof-float-in-avoid-moved-whole", "oof-below-avoid", "oof-none", "oof-none-block", "oof-docend", "oof-split", "oof-twice"} {
 		if flags[k] {
 			dg.Tags = append(dg.Tags, k)
 		}
@@ -334,6 +385,48 @@ func (s *structure) diagnose(p *pagedoc.TPara, k int) paraDiag {
 		}
 	}
 	return dg
+}
+
+// lostWordBeforeFloat: the missing segment [from, to) of the paragraph's own non-space text
+// lies inside the word that immediately precedes a float item (no white space between the
+// word and the float) and runs up to the float
+func lostWordBeforeFloat(p *pagedoc.TPara, from, to int) bool {
+	pos, wordStart := 0, 0
+	found := false
+	var walk func(its []*pagedoc.TItem)
+	walk = func(its []*pagedoc.TItem) {
+		for _, it := range its {
+			switch it.Kind {
+			case pagedoc.TText:
+				for _, c := range it.Text {
+					if c == ' ' || c == '\t' || c == '\n' || c == '\r' {
+						wordStart = -1
+					} else {
+						if wordStart < 0 {
+							wordStart = pos
+						}
+						pos++
+					}
+				}
+			case pagedoc.TPageCount:
+				if wordStart < 0 {
+					wordStart = pos
+				}
+				pos += len([]rune(pagedoc.PageCountMark))
+			case pagedoc.TSpan:
+				walk(it.Kids)
+			case pagedoc.TFloat:
+				if wordStart >= 0 && to == pos && from >= wordStart && from < to {
+					found = true
+				}
+			case pagedoc.TAbs:
+			default: // br, inline-block, block in inline: ends the word
+				wordStart = -1
+			}
+		}
+	}
+	walk(p.Items)
+	return found
 }
 
 // inlineTriggers: structural triggers of the two known inline-layout deviations.
